@@ -70,6 +70,19 @@ func isConstantText(p *Prog, fn *ssa.Function, v ssa.Value, depth int) bool {
 			}
 		}
 		return true
+	case *ssa.Call:
+		// text assembled by a module helper from constants and its own (constant) arguments
+		sc := x.Call.StaticCallee()
+		if sc == nil || !p.InModule(sc) || len(sc.Blocks) == 0 || sc.Signature.Results().Len() != 1 {
+			return false
+		}
+		rets := returnsOf(sc)
+		for _, rt := range rets {
+			if !isConstantText(p, sc, rt.Results[0], depth+1) {
+				return false
+			}
+		}
+		return len(rets) > 0
 	}
 	return false
 }
